@@ -176,12 +176,14 @@ def match_known(known, prop, clause, key):
 
 
 # --------------------------------------------------------------------------- minimisation
-def minimise(engine, choices, target, budget=400):
-    """shrink a choice list while the same (clause, key) violation persists"""
+def minimise(engine, choices, target, budget=400, wall_s=90.0):
+    """shrink a choice list while the same (clause, key) violation persists; bounded by re-runs and by wall clock"""
     spent = [0]
+    t_end = time.time() + wall_s
 
     def fails(c):
-        if spent[0] >= budget:
+        if spent[0] >= budget or time.time() > t_end:
+            spent[0] = max(spent[0], budget)
             return None
         spent[0] += 1
         try:
@@ -418,7 +420,7 @@ def run_check(engine, tier):
             continue
         i, seed, _, _, choices, detail = vs[0]
         budget = getattr(engine, "minimise_budget", {"quick": 1500, "thorough": 6000})[tier]
-        small, spent = minimise(engine, choices, (clause, key), budget)
+        small, spent = minimise(engine, choices, (clause, key), budget, 90.0 if tier == "quick" else 600.0)
         ch, res = run_choices(engine, small)
         if not res.get("violation"):
             raise HarnessError("violation %s/%s of run %d vanished on replay from its choice list" % (clause, key, i))
